@@ -10,7 +10,8 @@
 
   1. every entry of `defaultReader.Properties` is predictable: a vector reader either has ALL its names written by ONE
      writer, or (IgnorableW: `red green blue [alpha]`, `r g b [a]`, `diffuse_*`) its first three names written by one
-     writer with the fourth name absent from the header, or a name it needs is absent from the header;
+     writer with the fourth name harmless — absent from the header, or written LATER with ANOTHER type (the reader then
+     falls back to the 3-vector, fix 8c2f8cb) —, or a name it needs is absent from the header;
   2. no two predicted claims land on the same (dimension, attribute);
   3. no property is named like the attribute of a claimed scalar reader (`Opacity` next to `opacity`).
   What the guard excludes is exactly the known-finding classes: a recognised group completed by properties of several
@@ -161,6 +162,24 @@ example : ∃ back, readMesh toyCoding defaultReader ((writeMesh toyCoding exCfg
       = .ok back ∧ RoundTrips toyCoding exCfg exCloud back = true :=
   ply_roundtrip_binary_bytes_closed toyCoding exCfg exCloud _ (by decide) (by decide) (by rfl) (by decide)
     (by decide) (by decide) (by decide) (by intro u hu; simp [exCloud] at hu)
+
+/-- INSIDE the guard: the default writer on a point cloud with Position, Color and a user scalar named `alpha` — header
+`x y z` float, `red green blue` uchar, `alpha` float: the fourth name of the colour group is present, AFTER the group, with
+another type; the reader falls back to the 3-vector (fix 8c2f8cb) and `alpha` comes back as a scalar -/
+def exAlphaMesh : MeshVal Nat :=
+  ⟨.point, [0, 1], [⟨3, positionAttr, [[1, 2, 3], [4, 5, 6]]⟩, ⟨3, colorAttr, [[0, 1, 0], [1, 1, 0]]⟩,
+                    ⟨1, nm "alpha", [[5], [6]]⟩], none⟩
+
+example : claimGuard (selectWriters (defaultWriter .le) exAlphaMesh) = true := by decide
+
+example : claimSpec (selectWriters (defaultWriter .le) exAlphaMesh)
+    = [(positionAttr, [nm "x", nm "y", nm "z"], .float), (colorAttr, [nm "red", nm "green", nm "blue"], .uchar),
+       (nm "alpha", [nm "alpha"], .float)] := by decide
+
+example : ∃ back, readMesh toyCoding defaultReader ((writeMesh toyCoding (defaultWriter .le) exAlphaMesh).toOption.getD [])
+      = .ok back ∧ RoundTrips toyCoding (defaultWriter .le) exAlphaMesh back = true :=
+  ply_roundtrip_binary_bytes_closed toyCoding (defaultWriter .le) exAlphaMesh _ (by decide) (by decide) (by rfl) (by decide)
+    (by decide) (by decide) (by decide) (by intro u hu; simp [exAlphaMesh] at hu)
 
 /-- known finding C04-w-name-before-group-other-type: scalar `a` (float) written before `r g b` (double) -/
 def exWNameCfg : WriterCfg :=
